@@ -9,7 +9,7 @@ as one action per window.  The clauses of the property are TLC invariants.
 Direction A: every case TLC prints is rendered (snapshots whose frames each carry their own
 bounds and their own cell, two independent attributes; neighbour files with the rows in the
 order the spec states; property arrays in one of several representations: float64 / int / bool /
-float32 / read-only / strided / Fortran order; ngrids as array / list / tuple; whole-number
+float32 / read-only / strided / Fortran order; ngrids as int64 / int32 / read-only array; whole-number
 sigma / cut-off / period as float / int / numpy scalar), the public routine is called, the
 result is compared with the spec's expectation (rationals, admissible sets, evaluated terms).
 Grid positions of every frame are projected to integers and handed to TraceCoarseGrain.tla,
@@ -187,18 +187,14 @@ def cond_array(rng, F, N, d, rank, kind="float64"):
     return x
 
 
-NG_KINDS = ("int64 array", "int32 array", "read-only array", "list", "tuple")
+NG_KINDS = ("int64 array", "int32 array", "read-only array")      # documented type: npt.NDArray of int (lists / tuples are not rendered)
 PPP_KINDS = ("int64 array", "int32 array", "strided view", "read-only array")
 NUM_KINDS = ("float", "int", "numpy.float64")
 
 
 def render_ngrids(ng, ngkind):
-    """the numbers of grid points as a caller may hold them (the documentation's own example is the list [25, 25])"""
+    """the numbers of grid points as a caller may hold them (the documented type is an integer ndarray)"""
     ng = [int(n) for n in ng]
-    if ngkind == 3:
-        return list(ng)
-    if ngkind == 4:
-        return tuple(ng)
     nga = np.array(ng, dtype=np.int32) if ngkind == 1 else np.array(ng, dtype=np.int64)
     if ngkind == 2:
         nga.setflags(write=False)
@@ -1038,7 +1034,7 @@ def run(tier, replay=None):
                 "independent attributes: every combination of same cell / other lengths / other tilt with same bounds / shifted origin over "
                 "consecutive frames, 2-D and 3-D; neighbour files with rows in any order and per-frame lists; real / complex / bool "
                 "properties); each is rendered (arrays as float64 / int / bool / float32 / read-only / strided / Fortran; ngrids as int64 / "
-                "int32 / read-only array, list, tuple; masks as int64 / int32 / strided / read-only; whole-number sigma, cut-off, period as "
+                "int32 / read-only array; masks as int64 / int32 / strided / read-only; whole-number sigma, cut-off, period as "
                 "float / int / numpy scalar) and replayed into gaussian_blurring (ranks 0-2, every frame, inputs left unchanged), "
                 "spatial_average, time_average (series whose frames differ in positions, cell and bounds). Returned grid positions go "
                 "to TraceCoarseGrain, which holds the frame cursor and decides them against the bounds of that frame (a grid that belongs to "
